@@ -8,11 +8,14 @@ import (
 	"encoding/json"
 	"fmt"
 	"io"
+	"net"
 	"sync/atomic"
 	"time"
 
 	"tunnox-core/internal/cloud/configs"
 	"tunnox-core/internal/cloud/models"
+	"tunnox-core/internal/core/storage/hybrid"
+	"tunnox-core/internal/core/storage/memory"
 	"tunnox-core/internal/packet"
 	"tunnox-core/internal/protocol/session"
 	"tunnox-core/internal/stream"
@@ -24,19 +27,21 @@ import (
 // handleExistingBridge build it ("bridge"), or the mini-server driven with handshakes and
 // TunnelOpen packets, where SessionManager owns the bridge ("session").
 type rig struct {
-	name           string
-	aN, bN         *vkit.BufConn
-	aS, bS         *srvConn
-	start          func() *failure // source side up, bridge running
-	attach         func() *failure // target attached
-	closeBridge    func()
-	ended          func() bool // bridge run over and, for the session rig, tunnel unknown to the session
-	endedWhat      string
-	counters       func() (sent, received int64)
-	cleanup        func()
-	release        func()        // lets a stalled statistics backend go on (no-op otherwise)
-	statsHits      func() int64  // calls that reached the stalled backend
-	noCounters     bool          // the cross-node forward copies outside CopyWithControl: counters stay 0
+	name        string
+	aN, bN      *vkit.BufConn
+	aS, bS      *srvConn
+	start       func() *failure // source side up, bridge running
+	attach      func() *failure // target attached
+	closeBridge func()
+	ended       func() bool // bridge run over and, for the session rig, tunnel unknown to the session
+	endedWhat   string
+	counters    func() (sent, received int64)
+	cleanup     func()
+	release     func()        // lets a stalled statistics backend go on (no-op otherwise)
+	statsHits   func() int64  // calls that reached the stalled backend
+	noCounters  bool          // the cross-node forward copies outside CopyWithControl: counters stay 0
+	setupErr    *failure      // the rig could not be built (inconclusive)
+	outage      func(on bool) // session rig with a fault-injecting store: switch the storage outage
 }
 
 func newConns(c Case) (aN, bN *vkit.BufConn, aS, bS *srvConn) {
@@ -64,19 +69,42 @@ func newDirectRig(c Case) *rig {
 	r := &rig{name: "bridge", endedWhat: "Bridge.Start is still running"}
 	r.aN, r.bN, r.aS, r.bS = newConns(c)
 	ctx, cancel := context.WithCancel(context.Background())
+	// what the server holds for each end: the fake's server-side end, or the adapter's WebSocket
+	// connection wrapper with the fake behind a relay
+	var connA, connB net.Conn = r.aS, r.bS
+	var links []interface{ close() }
+	r.setupErr = nil
+	if c.AdapterWS == "A" || c.AdapterWS == "B" {
+		far := r.aS.BufConn
+		if c.AdapterWS == "B" {
+			far = r.bS.BufConn
+		}
+		l, sc, err := dialAdapterWS(far)
+		if err != nil {
+			r.setupErr = harnessFail("adapter WebSocket pair", err)
+		} else {
+			links = append(links, l)
+			if c.AdapterWS == "A" {
+				connA = sc
+			} else {
+				connB = sc
+			}
+		}
+	}
 	var spA, spB stream.PackageStreamer
 	if c.Stream {
-		spA = stream.NewStreamProcessor(r.aS, r.aS, ctx)
-		spB = stream.NewStreamProcessor(r.bS, r.bS, ctx)
+		spA = stream.NewStreamProcessor(connA, connA, ctx)
+		spB = stream.NewStreamProcessor(connB, connB, ctx)
 	}
 	const tunnelID, mappingID = "tun-c02", "pm-c02"
-	src := session.CreateTunnelConnection("conn-src", r.aS, spA, 101, mappingID, tunnelID)
+	src := session.CreateTunnelConnection("conn-src", connA, spA, 101, mappingID, tunnelID)
 	cfg := &session.TunnelBridgeConfig{
 		TunnelID: tunnelID, MappingID: mappingID,
-		SourceTunnelConn: src, SourceConn: r.aS, SourceStream: spA,
+		SourceTunnelConn: src, SourceConn: connA, SourceStream: spA,
 		BandwidthLimit: c.Limit,
 	}
 	r.release = func() {}
+	r.outage = func(bool) {}
 	r.statsHits = func() int64 { return 0 }
 	if c.StatsStall {
 		// traffic accounting is on and its backend hangs: the final report at close time never returns
@@ -87,7 +115,7 @@ func newDirectRig(c Case) *rig {
 		r.statsHits = sc.hits
 	}
 	br := session.NewTunnelBridge(ctx, cfg)
-	tgt := session.CreateTunnelConnection("conn-tgt", r.bS, spB, 202, mappingID, tunnelID)
+	tgt := session.CreateTunnelConnection("conn-tgt", connB, spB, 202, mappingID, tunnelID)
 	startDone := make(chan struct{})
 	started := false
 	r.start = func() *failure {
@@ -105,6 +133,11 @@ func newDirectRig(c Case) *rig {
 		cancel()
 		if started {
 			waitFor(5*time.Second, func() bool { return isDone(startDone) })
+		}
+		connA.Close()
+		connB.Close()
+		for _, l := range links {
+			l.close()
 		}
 	}
 	return r
@@ -312,6 +345,15 @@ func newMiniRig(c Case) (*rig, *failure) {
 		sc.CleanupInterval = sc.HeartbeatTimeout / 4
 		opts.Session = sc
 	}
+	r.outage = func(bool) {}
+	if c.StorageOutage {
+		// the storage the server builds (hybrid facade over memory) with a switchable outage
+		hc := hybrid.DefaultConfig()
+		hc.EnablePersistent = false
+		st := vkit.NewOutageStore(hybrid.NewWithSharedCache(context.Background(), memory.New(context.Background()), nil, nil, hc))
+		opts.Storage = st
+		r.outage = func(on bool) { st.Down.Store(on) }
+	}
 	srv, err := miniserver.New(opts)
 	if err != nil {
 		return nil, harnessFail("miniserver.New", err)
@@ -476,6 +518,11 @@ func newMiniRig(c Case) (*rig, *failure) {
 		}
 		if tunB != nil {
 			tunB.cl.SP.Close()
+		}
+		r.outage(false)
+		if c.StorageOutage && srv.Routing != nil {
+			// the record could not be deleted while the store was down (it has a TTL); not the subject here
+			srv.Routing.RemoveWaitingTunnel(srv.Ctx, tunnelID)
 		}
 		waitFor(5*time.Second, func() bool { return !known() })
 		closeLinks()
